@@ -78,7 +78,10 @@ def main():
                 print(f"{mid}: PATCH DOES NOT APPLY (count={s.count(old)})", flush=True)
                 results.append((mid, False))
             else:
-                open(path, "w").write(s.replace(old, new))
+                s = s.replace(old, new)
+                if "_SHARED" in new and "_SHARED =" not in s:
+                    s = s.replace("class NotBijection(Exception):", "_SHARED: tuple = ({}, {})\n\n\nclass NotBijection(Exception):")
+                open(path, "w").write(s)
                 missing = baseline_tests(tree) if with_tests else None
                 rc, viol, keys = run_check(prop, src)
                 ok = rc == 1 and bool(viol)
